@@ -293,18 +293,53 @@ func lineTermLike(c rune) bool {
 	return c == '\n' || c == '\r' || c == 0x2028 || c == 0x2029 || c == 0x85 || c == '\v' || c == '\f'
 }
 
-// classify names the kind of a match-result defect from the pattern's
-// features and the subject (predicate-based; no knowledge of ogen's code paths).
-func classify(f ecmare.Features, engine string, subj []rune, ogen bool, nonUAgrees bool) string {
-	switch {
-	case f.EmptyClass && hasAbove(subj, 0x1FFFF):
-		return "class/empty-or-any-bounded-U+1FFFF"
-	case f.PropertyEscape:
-		return "escape/unicode-property-as-literal"
-	case f.SurrogatePair:
-		// \uD83D\uDE00 is one code point in Unicode mode; taken as two units it also
-		// changes what a following quantifier applies to, so the subject need not be astral
-		return "escape/surrogate-pair-not-combined"
+// Deviation models of already understood defects. A mismatch gets the specific
+// signature only if the model reproduces ogen's answer on that very pair, so a
+// different defect in a pattern that merely contains `[^]`, a surrogate-pair
+// escape or \p{..} keeps a generic signature. (Classification only: whether a
+// pair is a violation is decided before and without these models.)
+var models = []struct {
+	sig     string
+	applies func(f ecmare.Features) bool
+	opt     ecmare.Options
+}{
+	{"class/empty-or-any-bounded-U+1FFFF", func(f ecmare.Features) bool { return f.EmptyClass }, ecmare.Options{AnyClassMax: 0x1FFFF}},
+	{"escape/surrogate-pair-not-combined", func(f ecmare.Features) bool { return f.SurrogatePair }, ecmare.Options{SplitSurrogatePairs: true}},
+	{"escape/unicode-property-as-literal", func(f ecmare.Features) bool { return f.PropertyEscape }, ecmare.Options{PropertyAsLiteral: true}},
+}
+
+func explainedBy(p string, opt ecmare.Options, subj []rune, ogen bool) bool {
+	prog, err := ecmare.ParseOpts(p, opt)
+	if err != nil {
+		return false
+	}
+	m, ok := prog.Test(subj)
+	return ok && m == ogen
+}
+
+// classify names the kind of a match-result defect: a known deviation model if
+// one (or all applicable ones together) explains ogen's answer, otherwise a
+// generic class from the pattern's features and the subject (predicate-based;
+// no knowledge of ogen's code paths).
+func classify(p string, f ecmare.Features, engine string, subj []rune, ogen bool) string {
+	var all ecmare.Options
+	n := 0
+	for _, m := range models {
+		if !m.applies(f) {
+			continue
+		}
+		if explainedBy(p, m.opt, subj, ogen) {
+			return m.sig
+		}
+		n++
+		if m.opt.AnyClassMax != 0 {
+			all.AnyClassMax = m.opt.AnyClassMax
+		}
+		all.SplitSurrogatePairs = all.SplitSurrogatePairs || m.opt.SplitSurrogatePairs
+		all.PropertyAsLiteral = all.PropertyAsLiteral || m.opt.PropertyAsLiteral
+	}
+	if n > 1 && explainedBy(p, all, subj, ogen) {
+		return "combined/empty-class+surrogate-pair+property-escape-models"
 	}
 	feat := "other"
 	switch {
@@ -316,20 +351,8 @@ func classify(f ecmare.Features, engine string, subj []rune, ogen bool, nonUAgre
 		feat = "anchor-line-terminator"
 	case f.WordClass && hasAbove(subj, 0x7F):
 		feat = "word-class-non-ascii"
-	case f.EmptyClass:
-		feat = "empty-class"
-	case hasAbove(subj, 0xFFFF):
-		feat = "astral-subject"
 	}
-	dir := "ogen-rejects"
-	if ogen {
-		dir = "ogen-accepts"
-	}
-	sig := "mismatch/" + engine + "/" + feat + "/" + dir
-	if nonUAgrees {
-		sig += "/non-unicode-mode-agrees"
-	}
-	return sig
+	return "mismatch/" + engine + "/" + feat
 }
 
 // O1 timeout: only ever turns a pair into "inconclusive".
@@ -749,7 +772,6 @@ func (w *worker) decide(it item, narrate bool) *outcome {
 					}
 				}
 			}
-			nonUAgrees := false
 			if o3 {
 				m := ans.bitU(i)
 				nvotes++
@@ -758,7 +780,6 @@ func (w *worker) decide(it item, narrate bool) *outcome {
 				}
 				if n := ans.bitN(i); n != m {
 					o.count("pairs_where_v8_result_depends_on_u_flag", 1)
-					nonUAgrees = n == og
 				}
 			}
 			if nvotes == 0 {
@@ -798,7 +819,7 @@ func (w *worker) decide(it item, narrate bool) *outcome {
 				unmatched++
 			}
 			if og != truth {
-				note(viol, &violOrder, classify(f, engine, rs, og, nonUAgrees), i, true)
+				note(viol, &violOrder, classify(p, f, engine, rs, og), i, true)
 			}
 		}
 	})
